@@ -297,6 +297,16 @@ def _equivalence(v, ctx):
             variants.append(w)
         except Exception:
             pass
+    # same-dtype rearrangements: equality is decided by the cells (missing == missing, position-wise)
+    base = build.cells(np.asarray(v))
+    # (object vectors compare with Python ==, where e.g. date != datetime: canonical cells do not apply)
+    for w in ([v[::-1].copy(), np.roll(np.asarray(v), 1).view(type(v))] if len(v) > 1 and not v.is_object() else []):
+        cw = build.cells(np.asarray(w))
+        want = all(build.same_cell(x, y, numeric_loose=True) for x, y in zip(base, cw))
+        got = bool(ctx.call("equal", v.equal, w))
+        if got != want or bool(w.equal(v)) != want:
+            raise Violation("equal disagrees with cell-wise equality (missing == missing at the same positions)",
+                            a=base, b=cw, equal=got, expected=want, dtype=str(v.dtype))
     rel = {}
     for i, a in enumerate(variants):
         for j, b in enumerate(variants):
